@@ -975,6 +975,14 @@ impl rustc_driver::Callbacks for Cb {
                     }
                     let items: Vec<J> = tcx.associated_item_def_ids(did).iter().map(|d| s(cx.key(*d))).collect();
                     j.push("items", J::A(items));
+                    let mut tys = Vec::new();
+                    for d in tcx.associated_item_def_ids(did).iter() {
+                        if matches!(tcx.def_kind(*d), DefKind::AssocTy) {
+                            let ty = tcx.type_of(*d).instantiate_identity().skip_norm_wip();
+                            tys.push((tcx.item_name(*d).to_string(), s(cx.ty_s(ty))));
+                        }
+                    }
+                    j.push("assoc_types", J::O(tys));
                     impls.push(j);
                 }
                 _ => {}
